@@ -15,7 +15,7 @@ CLAIMS = {
     'C01': dict(
         text="static analysis: C01.R1 (residual loop invariant on linear forms), C01.R2 (cleared flag => output is the "
              "input, on every path of the single-IMF extraction under the three stop rules), C01.R3 (only licensed "
-             "loop exits), C01.R4 (None-chain down to 'fewer than two extrema') decide the additive-decomposition "
+             "loop exits, decided on the evaluated ends of one loop iteration), C01.R4 (None-chain down to 'fewer than two extrema'), C01.R5 (an extracted component never shares its buffer with a residual updated in place) decide the additive-decomposition "
              "identity and the non-oscillatory-residual clause structurally; not decided: floating-point rounding.",
         note=TRUST + "Assumes elementwise numpy arithmetic is real algebra up to rounding and that shape-only "
              "operations are identities of that algebra (C19 judges shapes).",
@@ -37,7 +37,7 @@ _claim('C03',
        "C03.R1 residual invariant for the layer loops of sift, mask_sift, complete_ensemble_sift; C03.R2 the cap reaches "
        "the extraction only in length positions; C03.R3 affine counter relation of every cap guard simulated for cap=1..8 "
        "(columns <= cap, guard reachable, guard stops the loop); C03.R4 member column indexing bounded by the smallest "
-       "member; C03.R5 second-layer loop range and ** of a dict; C03.R6 canonicalisation of the signal.",
+       "member; C03.R5 second-layer loop range and ** of a dict; C03.R6 canonicalisation of the signal; C03.R7 a cap is never written into the caller's option dict; C03.R8 no clobbering of a stored component through aliasing.",
        "finiteness of outputs for finite inputs.",
        "path-sensitive abstract interpretation + polynomial normal forms + affine counter model")
 _claim('C04',
@@ -45,48 +45,48 @@ _claim('C04',
        "current iterate with identical options); C04.R2 stop dispatch table with argument binding; C04.R3 stop "
        "predicates in boolean normal form vs. documented criteria; C04.R4 counter +1 per iteration, limit guard with "
        "raise before every increment, only licensed loop exits; C04.R5 cleared flag => unmodified input; C04.R6 energy "
-       "stop predicate and operands.",
+       "stop predicate and operands; option dicts are not modified between sifting iterations.",
        "convergence speed; progress of the re-padding loop of get_padded_extrema (trusted np.pad).",
        "path-sensitive abstract interpretation (loop peeling + widening) + polynomial / boolean normal forms")
 _claim('C06',
        "C06.R1 every option carrier is bound from caller to callee at every call / partial / pool dispatch on every "
        "evaluated path, down to the stage it configures (positional starmap tuples included); C06.R2 carriers are only "
        "replaced by the defaulting idiom with signature-equal literals; C06.R3 configuration keys are formals and do "
-       "not collide at ** sites.",
+       "not collide at ** sites; C06.R4 sibling call sites of one helper forward the same options.",
        "how much an option changes the numbers.",
        "resolved call graph + argument binding (keyword, positional, **, functools.partial, starmap tuples) on evaluated paths")
 _claim('C08',
        "C08.R1 no draw from the inherited process-global RNG is reachable in a pool worker under the arguments bound at "
        "its dispatch site, and bound noise is a per-member column of a parent-side matrix; C08.R2 member algebra "
        "(single / flip with the same draw and identical options) and per-IMF mean over members; C08.R3 zero noise level "
-       "folds every member to sift(X, same options).",
+       "folds every member to sift(X, same options), every return path delivers the member mean; the worker does not modify its arguments; C08.R4 the noise update of the complete ensemble keeps the member axis for every ensemble size.",
        "statistical independence of the realisations beyond 'distinct draws'.",
        "effect analysis of worker cones under dispatch-site bindings + linear forms (RNG draws are fresh atoms)",
        "Assumes Pool.starmap binds tuples positionally and returns results in submission order.")
 _claim('C12',
        "C12.R1 the boundary list is decoded to [0] ++ wraps ++ [N] on every feasible path (affine forms over N, wrap "
        "positions in [1, N-1] strictly increasing), consumed as half-open slices B[j]:B[j+1], every slice non-empty; "
-       "C12.R2 wraps unfiltered, strict threshold; C12.R3 per-column label counter; C12.R4 wrap-free early exit.",
+       "C12.R2 wraps unfiltered, strict threshold; C12.R3 per-column label counter; C12.R4 wrap-free early exit; C12.R5 the good-cycle filter is the documented total predicate; C12.R6 ensure_2d contract of the phase input.",
        "nothing numerical is involved; the behaviour of np.where/np.diff/np.r_ is trusted.",
        "path-sensitive abstract interpretation + affine index ranges")
 _claim('C13',
        "C13.R1 each criterion of is_good in boolean/comparison normal form vs. the documented one; C13.R2 a segment is "
        "labelled only under all(is_good(that slice, caller's phase_edge)) after the mask veto on the same slice, "
        "return_good=False substitutes an all-true vector; C13.R3 the container forwards its tolerance to the stored "
-       "criteria function.",
+       "criteria function; C13.R4 the slice-cache boundaries the container's flag is computed over.",
        "that the slice looked at is the whole wrap-to-wrap segment is C12.R1.",
        "boolean normal forms + path conditions of the labelling store + argument binding")
 _claim('C18',
        "C18.R1 the default configuration is reconstructed symbolically from get_config and compared with variant "
        "formals, stage formals, explicit keywords at ** sites and fallback literals; C18.R2 accessor arity tables of "
        "get/set/del agree with nesting depth; C18.R3 abstract YAML document shape of each writer vs. its reader; "
-       "C18.R4 export does not mutate the live store (alias/mutation analysis).",
+       "(payload = own type + own store, get_func binds the own variant); C18.R4 export does not mutate the live store (alias/mutation analysis); C18.R6 YAML-safe conversion table and list-like treatment of sequence-valued options.",
        "behaviour of the callable returned by get_func beyond keyword binding.",
        "symbolic reconstruction of the config term + sibling comparison + document-shape substitution + mutation analysis")
 _claim('C20',
        "C20.R1 typestate of the console level in the verbosity wrapper over all normal and exceptional outcomes; "
        "C20.R2 None-safety of the saved level; C20.R3 logging is write-only in numeric modules (pure arguments, no "
-       "state reads); C20.R4 decorators are transparent; C20.R5 accessors touch only 'console' handlers of logger 'emd'.",
+       "state reads); C20.R4 decorators are transparent; C20.R5 accessors touch only 'console' handlers of logger 'emd' and never configure logging.",
        "nothing; logging calls themselves are assumed not to raise.",
        "typestate walk with exception outcomes and condition correlation; nullness summary; effect/purity scan")
 
@@ -103,20 +103,20 @@ _claim('C05',
        "C05.R1 strict order-1 extrema search unfiltered on the default path; C05.R2 trough/peak conjugacy; C05.R3 aligned "
        "two-array padding and exact exit test of the re-padding loop; C05.R4 integrality of the interpolation grid for "
        "every option value (parabolic refinement makes locations real), same grid for evaluation and mask, mask "
-       "{t>=0, t<N}, length mismatch raises; C05.R5 method table; C05.R6 parabola constants over the rationals.",
+       "{t>=0, t<N}, length mismatch raises; C05.R5 method table; C05.R6 parabola constants over the rationals (in-place updates through aliases are modelled); C05.R7 extrema / padding options reach the extrema routine as supplied.",
        "that odd reflection yields strictly increasing knots (trusted np.pad); spline values.",
        "integrality domain with interprocedural summaries; normal-form comparison; literal evaluation over Q")
 _claim('C07',
        "C07.R1 structural decoding of the masked-extraction result: mean over columns of (ordered concat of worker(X + "
        "M[:,k])[0] - M) with the same M added and removed, M = amp*cos(2 pi z t + phi_k); C07.R2 phase grid, frequency "
        "ladder, per-layer indexing, returned frequencies are the indexed array; C07.R3 ordered pool API and effect-free "
-       "worker cone; C07.R4 amplitude-mode table, zero amplitude gives a zero mask.",
+       "worker cone; C07.R4 amplitude-mode table, zero amplitude gives a zero mask; C07.R5 the mask routines run with the caller's option carriers.",
        "numerical closeness to an executable specification of the masking rule.",
        "term decoding on evaluated paths + polynomial normal forms + pool effect summaries")
 _claim('C09',
        "C09.R1 every return wraps the unwrapped phase with wrap_phase('2pi') == mod(ncycles*2pi); C09.R2 frequency is "
        "freq_from_phase of the same unwrapped phase, freq_from_phase / phase_from_freq coefficients (product 1); "
-       "C09.R3 homogeneity degrees (0, 0, 1) for hilbert / nht / quad and the normalisation core of amplitude_normalise; "
+       "C09.R3 homogeneity degrees (0, 0, 1) for hilbert / nht / quad, the normalisation core of amplitude_normalise and its per-column iteration budget; "
        "C09.R4 method table total on the documented literals.",
        "the bulk of the behavioural statement: accuracy on sinusoids for any method, the effect of the smoothing window, "
        "'%' landing exactly on 2pi.",
@@ -125,27 +125,27 @@ _claim('C10',
        "C10.R1 class-by-class evaluation of row index, keep filter and value of hilberthuang and of the loop of "
        "hilberthuang_1d over the digitize index classes (below / in(k) / at-last-edge / above / nan) for E = 2,3,5; "
        "C10.R2 sibling agreement of the two maps; C10.R3 energy exponent, dense = toarray(sparse); C10.R4 bin definition; "
-       "C10.R5 dimension checks present, L1 library attributes resolve.",
+       "C10.R5 dimension checks present, L1 library attributes resolve; C10.R6 ensure_2d contract (shape classes, values untouched).",
        "floating-point summation order of duplicate sparse entries.",
        "finite abstract domain of digitize index classes with elementwise transfer functions")
 _claim('C11',
        "C11.R1 fold/unfold arithmetic of holospectrum evaluated over every pair of digitize classes (E1 in {2,3}, E2 in "
        "{2,4}): folded index fits the width, unfolds to [AM, carrier], the trim removes exactly the out-of-range classes; "
-       "C11.R2 squash table over the same accumulation; C11.R3 exponent and dimension checks; L1.",
+       "C11.R2 squash table over the same accumulation (sum / count forms of the mean with the count classified); C11.R3 exponent and dimension checks; C11.R4 ensure_2d contract; L1.",
        "floating-point summation order.",
        "finite abstract domain of index-class pairs + term decoding")
 _claim('C14',
        "C14.R1 reducer argument is vals[where(label == i)] stored in slot i over range(max+1); C14.R2 NaN-initialised "
        "projection written through the same lookup; C14.R3 phase_align uses one index set for phase and value, the bin "
        "centres of define_hist_bins(0, 2pi, npoints), column = cycle; C14.R4 the bin loop of bin_by_phase covers every "
-       "allocated row (digitize classes for nbins = 2,3,5); L1.",
+       "allocated row (digitize classes for nbins = 2,3,5); the interpolant gets the requested kind and extrapolates; C14.R5 get_cycle_stat is the support routine on the object's own labels, out='samples' its projection; L1.",
        "interpolation error for non-linear profiles.",
        "term decoding with inlined label lookups + digitize index classes")
 _claim('C15',
        "C15.R1 comparator table by folding the parser's path conditions for 6 operators x 3 literal prefixes; C15.R2 "
        "conjunction with the metric on the left; C15.R3 subset / chain counters; C15.R4 every metric store is guarded or "
        "of cycle-level provenance; C15.R5 cache precondition (all-cycles unmasked vector, gap-free by C12.R1) and the "
-       "cache's own boundaries.",
+       "cache's own boundaries; metric values are not modified in place; C15.R6 recomputation on every pick; C15.R7 the label route and the slice-cache route delimit the augmented cycle identically (sibling agreement by substitution); C15.R8 possibly-None extents never index the values unguarded.",
        "equality of arbitrary user functions under cache on/off; the full operation-history quantifier beyond 'each "
        "operation preserves the store invariant'.",
        "partial evaluation of path conditions on concrete strings + counter relations + C12 cover rule")
@@ -153,20 +153,21 @@ _claim('C16',
        "C16.R1 index-space typing of all 14 map_* functions (samples/cycles/subset/chains) against the level their name "
        "promises; C16.R2 the -1 sentinel is never used or passed as an index unguarded, dead None-guards are reported; "
        "C16.R3 squeeze followed by len; C16.R4 six projections NaN-initialised on the target level and written through "
-       "the matching map.",
+       "the matching map; a filled range between two indices is not an index-set map, may-be-None results are never used as "
+       "an index; C16.R5 labels of every column are 0..K-1.",
        "nothing numerical.",
        "type checking in an index-space domain over evaluated paths")
 _claim('C17',
        "C17.R1 the occurrence lookup returns index sets in the row space of its argument (a sorted copy has a different "
        "index space); C17.R2 provenance and range guard of every final assignment, x/y index lists equal by "
-       "construction, K and the distance bound reach the query.",
+       "construction, K and the distance bound reach the query; C17.R3 one claimant per candidate and neighbour column (argmin, not an equality test on the minimum).",
        "global injectivity of the greedy column-by-column assignment; K=1 (scipy returns 1-D arrays).",
        "index-space typing + path conditions of the assignment stores")
 _claim('C19',
-       "C19.R1 the three ensure_* routines folded on 7 representative shapes against their documented contract; "
+       "C19.R1 the three ensure_* routines folded on 11 representative shapes against their documented contract, every returned array is its own input through layout-only operations; "
        "C19.R2 canonicalisation precedes every other use of the signal; C19.R3 flow-sensitive interprocedural "
        "alias/mutation analysis over every public function and method of the numeric modules; C19.R4 length checks "
-       "present and raising, L1; C19.R5 no mutable module state.",
+       "present, and the conditions of ensure_equal_dims evaluated concretely on 14 shape lists raise exactly on a mismatch, L1; C19.R5 no mutable module state.",
        "value equality beyond 'same canonical input'; read-only array flags.",
        "shape-class evaluation of path conditions + alias/freshness/mutation dataflow with summaries")
 
